@@ -4,6 +4,8 @@ from vlib import hx
 from hubcommon import HubMode
 import c12
 import c02
+from relaycommon import RelayMode
+from lagcommon import LagMode
 from tiecommon import TIE_DENY, TIE_TTLCODE, TIE_CHANMAP, TIE_NOTE, TIE_ASSUMPTION
 
 RULE = ("chanmap mode: op sequences add/deleteChild/deleteAndCloseChild/deleteParent/deleteAndCloseParent over <=3 parents "
@@ -119,5 +121,11 @@ class TtlForC08(c02.TtlMode):
                [("store-stuck", f"{l} -> {o}") for l, o in zip(case, out) if o in ("stuck", "dead")][:1]
 
 
+class RelayForC08(RelayMode):
+    """the loopback relay histories (zero-length frames, odd paths, bad codes, repeated scopes, the relay's own `stats` topic):
+    whatever clients do, the process must survive — more cases wait for the stats reporter to consume what was sent to it"""
+    settle_prob = 0.6
+
+
 def modes(tier):
-    return [ChanMapMode(), HubMode("C08"), StressForC08(), TtlForC08()]
+    return [ChanMapMode(), HubMode("C08"), StressForC08(), TtlForC08(), RelayForC08("C08"), LagMode("C08")]
